@@ -321,6 +321,20 @@ func CheckC04(tier string) {
 			if cl == "" {
 				continue
 			}
+			if cl == "redeclared" {
+				// the same injector name declared in two declaration files
+				// of the package (each file is generated on its own)
+				filesOf := map[string]map[int]bool{}
+				for _, in := range s.Injectors {
+					if filesOf[in.Name] == nil {
+						filesOf[in.Name] = map[int]bool{}
+					}
+					filesOf[in.Name][in.File] = true
+				}
+				if f := strings.Fields(e.Msg); len(f) > 0 && len(filesOf[f[0]]) > 1 {
+					cl = "injector-declared-in-two-files"
+				}
+			}
 			kind := "user-file"
 			if txt, ok := p.Band[e.File]; ok {
 				ls := strings.Split(txt, "\n")
